@@ -266,16 +266,15 @@ def r11_3_mapping(chk):
     chk.require([t for _, t, _ in dn.returns] == [want], "R11.3", "dataset-name-default",
                 "a channel's data set name is not `its own data set name, or its name when none was given`",
                 dn.func.where)
-    mk = chk.summary("LogicalFile", "_make_multi_frame_data")
-    calls = [c for t in _all_terms(mk) for c in calls_in(t) if call_arg(c, kw="mapping") is not None]
-    calls = list(dict.fromkeys(calls))
-    chk.floor("wrapper constructions", len(calls), 2)
+    from ._layout import frame_data_plan
+    plan = frame_data_plan(chk)
+    chk.floor("wrapper constructions", len(plan.alts), 2)
     fr_p = ("param", "fr")
-    for c in calls:
-        ok = call_arg(c, kw="mapping") == A(fr_p, "channel_name_mapping") and \
-            call_arg(c, kw="from_idx") == ("param", "from_idx") and call_arg(c, kw="to_idx") == ("param", "to_idx")
+    for _conds, c, callee, b in plan.alts:
+        ok = callee is not None and b.get("mapping") == A(fr_p, "channel_name_mapping") and \
+            b.get("from_idx") == ("param", "from_idx") and b.get("to_idx") == ("param", "to_idx")
         chk.require(ok, "R11.3", f"branch-passes-mapping-and-window:{call_name(c)}",
-                    "a construction branch does not pass the frame's mapping and the row window", mk.func.where)
+                    "a construction branch does not pass the frame's mapping and the row window", plan.func.where)
 
 
 def _merge_parts(t):
@@ -291,24 +290,32 @@ def _merge_parts(t):
 
 
 def r11_4_inline(chk):
-    mk = chk.summary("LogicalFile", "_make_multi_frame_data")
+    from ._layout import frame_data_plan
+    from ..terms import raise_conditions
+    plan = frame_data_plan(chk)
+    mkf = plan.func
     data = ("param", "data")
     data_or_empty = ("ite", ("cmp", "is", data, NONE), ("dict", ()), data)
     inline = A(SELF, "_data_dict")
-    wr = [c for t in _all_terms(mk) for c in calls_in(t, "DictDataWrapper")]
+    ddw = chk.ix.get_class("DictDataWrapper")
+    wr = [(c, callee, b) for _, c, callee, b in plan.alts if callee is not None and callee.cls is not None
+          and (callee.cls is ddw or ddw in callee.cls.mro()) and callee.name == "__init__"]
+
     def merged(t):
         # the merge itself, or - when there are no inline data - the given dict alone (equal content)
+        if t is None:
+            return False
         if _merge_parts(t) == [inline, data_or_empty]:
             return True
         return t[0] == "ite" and t[1] == inline and _merge_parts(t[2]) == [inline, data_or_empty] and \
             t[3] == data_or_empty
-    ok = bool(wr) and all(merged(call_arg(c, 0)) for c in wr)
+    ok = bool(wr) and all(merged(b.get(callee.param_names[1])) for c, callee, b in wr)
     chk.require(ok, "R11.4", "dicts-merged", "inline data and the dict passed to write() are not merged (write-time data "
-                "overriding) into the one dict wrapper", mk.func.where)
+                "overriding) into the one dict wrapper", mkf.where)
     is_dict = ("call", ("global", "isinstance"), (data_or_empty, ("global", "dict")), ())
-    ok = any(("not", is_dict) in pc and inline in pc for pc, _, _ in mk.raises)
+    ok = any(("not", is_dict) in pc and inline in pc for pc, _ in raise_conditions(plan.summ))
     chk.require(ok, "R11.4", "non-dict-with-inline-raises", "non-dict data together with inline channel data is "
-                "accepted", mk.func.where)
+                "accepted", mkf.where)
     add = chk.summary("LogicalFile", "add_channel")
     stores = [e for e in add.stores(kind="store_sub") if e.base == inline]
     chk.floor("inline data stores", len(stores), 1)
